@@ -14,7 +14,7 @@ from ..oracle import spectrum as O
 LEVEL = "exploration"
 NEEDS = ["harness", "cli"]
 RULE = ("L: shapes with 1-6 axes (lengths 1-7, plus one array with > 8192 entries per shard) x values {integers, dyadics, random doubles, wide "
-        "exponents, +-0, subnormals, 1e+-300, max double, +-inf, NaN} x precision 0..17; npy: bits identical after write->read; text: every printed "
+        "exponents, +-0, subnormals, 1e+-300, max double, +-inf, NaN, tiny doubles whose top byte is an ASCII whitespace byte (as the LAST element)} x precision 0..17; npy: bits identical after write->read; text: every printed "
         "finite token d satisfies |d - x| <= 0.5*10^-p exactly and the value read back is float(d) bit for bit (NaN<->NaN, inf<->inf). C: writers "
         "{create, view, fold} x formats {text, npy} x transport {file, pipe} -> readers {view, fold, stat} via {stdin pipe, regular file, /dev/stdin, named pipe} with auto-detection; text->npy->text at "
         "the same precision reproduces the text when values have <= 15 significant digits. Non-trivial: non-constant data; distinct = digest(shape, bits, precision).")
@@ -56,7 +56,7 @@ def check_L(S, p):
             shape = rng.choice([[8193], [91, 91], [3, 2800], [21, 21, 21]])
         else:
             shape = GS.random_shape(rng, 1, 6, 7 if rng.random() < 0.5 else 3)
-        kind = rng.choice(["int", "dyadic", "real", "wide", "special", "special", "bigint", "signed"])
+        kind = rng.choice(["int", "dyadic", "real", "wide", "special", "special", "bigint", "signed", "ws-top-byte"])
         vals = GS.values(rng, O.prod(shape), kind)
         prec = rng.randint(0, 17)
         cases.append((shape, vals, prec, kind))
@@ -140,8 +140,11 @@ def check_C(S, p):
             transport = "pipe"
         else:
             shape = GS.random_shape(rng, 1, 4, 5)
-            vals = GS.values(rng, O.prod(shape), rng.choice(["int", "real", "dyadic"]))
-            src = GS.text_spectrum(shape, vals, 6) if rng.random() < 0.5 else GS.npy_bytes(shape, vals)
+            vkind = rng.choice(["int", "real", "dyadic", "ws-top-byte"])
+            vals = GS.values(rng, O.prod(shape), vkind)
+            src = GS.text_spectrum(shape, vals, 6) if (rng.random() < 0.5 and vkind != "ws-top-byte") else GS.npy_bytes(shape, vals)
+            if vkind == "ws-top-byte" and writer == "view":
+                fmt = "npy"
             args = [writer, "--precision", str(prec)] + (["-O", fmt] if writer == "view" else [])
             if transport == "file":
                 out = E.tmpfile(b"", ".out")
